@@ -9,6 +9,7 @@ import importlib
 import json
 import multiprocessing
 import os
+import signal
 import sys
 import time
 import traceback
@@ -38,6 +39,16 @@ def _worker(args):
         import faulthandler
         import signal
         faulthandler.register(signal.SIGUSR1, all_threads=True)     # kill -USR1 <pid> prints where a shard is
+    except Exception:
+        pass
+    try:
+        # a shard never outlives its runner: it is killed when the parent dies, and by an alarm past the wall-clock limit
+        if multiprocessing.current_process().name != "MainProcess":
+            import ctypes
+            ctypes.CDLL("libc.so.6", use_errno=True).prctl(1, signal.SIGKILL)      # PR_SET_PDEATHSIG
+            if os.getppid() == 1:
+                os._exit(2)
+            signal.alarm(int(float(os.environ.get("TV_SHARD_TIMEOUT", "1500" if tier == "quick" else "10800"))) + 300)
     except Exception:
         pass
     res = {"shard": shard, "violation": None, "error": None}
